@@ -162,7 +162,11 @@ fn observer(kind: ObsKind, addr: usize, size: usize, align: usize) {
                 wd.err("C03", "side_layout_mismatch", "side_dealloc_layout".into(), format!("side record at {:#x} allocated with size {} released with size {}", addr, rec.size, size));
             }
             if let BoxOwner::Node(id) = rec.owner {
-                let wh = m.weak_holders(id);
+                let mut wh = m.weak_holders(id);
+                // the Weak handed to a new_cyclic closure is dropped by new_cyclic itself (on return or while
+                // unwinding): it may already be gone
+                let cyc = m.cyc.iter().filter(|c| **c == id).count() as u32;
+                wh.0 = wh.0.saturating_sub(cyc);
                 let val = m.obj(id).map(|o| o.val);
                 if wh.0 > 0 {
                     wd.err("C09", "side_record_freed_with_weaks", "side_freed_while_weak_exists".into(), format!("the side record of #{} was released while {} Weak pointers to it exist (stack {})", id, wh.0, wd.stack_sig()));
@@ -208,6 +212,7 @@ pub fn lost_holder(wd: &World, id: u32) {
         if max == 0 {
             if !in_coll {
                 o.zero_outside = true;
+                bump(&wd.stats.cascade_checks);
             }
         } else if min >= 1 {
             // one of several handles goes away: the object is buffered (unless a collection holds it in its lists)
@@ -441,7 +446,12 @@ pub fn on_drop(wd: &World, n: &Node) {
                     wd.err("C08", "upgrade_some_dying", "upgraded_then_dropped_same_phase".into(), format!("Weak::upgrade handed out #{} during the drop phase that then dropped it", id));
                 }
             }
-            Val::Unwrapped | Val::Unboxed => {}
+            Val::Unboxed => {
+                // a value handed to Cc::new that never reached a box: Cc::new is unwinding, so the automatic
+                // collection it had started is over
+                wd.in_collection.set(false);
+            }
+            Val::Unwrapped => {}
             Val::Dropped => {
                 wd.err("C03", "double_drop", "double_drop_model".into(), format!("the value of #{} was dropped twice", id));
                 return;
@@ -1094,6 +1104,7 @@ pub struct PreClean {
     total_runs: u64,
     cleaner_gone: bool,
     nested_same_map: bool,
+    cb_total: u64,
 }
 
 #[cfg(feature = "cleaners")]
@@ -1109,15 +1120,17 @@ pub fn pre_clean(wd: &World, oid: u32, idx: usize) -> PreClean {
         total_runs: wd.stats.actions_run.get(),
         cleaner_gone: o.map_or(true, |o| o.cleaner_exit_seen || !o.map_live),
         nested_same_map: nested,
+        cb_total: wd.cb_total.get(),
     }
 }
 
 #[cfg(feature = "cleaners")]
 pub fn post_clean(wd: &World, oid: u32, idx: usize, pre: &PreClean) {
-    // clean() upgrades the map and drops that handle again: one of several handles to the map went away
+    // clean() upgrades the map and drops that handle again: one of several handles to the map went away. If an
+    // action ran meanwhile, what it did (nested clean(), collections) may have moved the map in or out again.
     if let Some(o) = wd.m.borrow_mut().obj_mut(oid) {
         if o.map_live {
-            o.map_buffered = if wd.in_collection.get() { Tri::Unk } else { Tri::In };
+            o.map_buffered = if wd.in_collection.get() || wd.cb_total.get() != pre.cb_total { Tri::Unk } else { Tri::In };
         }
     }
     if wd.fault_fired.get() > 0 || wd.degraded.get() {
@@ -1368,7 +1381,11 @@ pub fn check_buffer(wd: &World, at: &str) {
             wd.err("C11", "buffer_structure", "buffer_node_not_live".into(), format!("buffered object at {:#x} is not a live managed box", n.addr));
         }
     }
-    // exact membership where the model is certain (statement's enter / leave rules)
+    // exact membership where the model is certain (statement's enter / leave rules); after a caught panic handles
+    // may have leaked, so the model's holder counts (and with them the predictions) are no longer exact
+    if wd.degraded.get() {
+        return;
+    }
     for o in &m.objs {
         if o.val == Val::Alive && o.box_live {
             match o.buffered {
@@ -1459,7 +1476,6 @@ pub fn check_qp(wd: &World, at: &str) {
                 wd.err("C03", "box_not_released", "dropped_value_box_still_allocated".into(), format!("the value of #{} was dropped but its allocation was not released before the API call returned (at {})", o.id, at));
             }
             if o.val == Val::Alive && o.box_live && o.zero_outside {
-                bump(&wd.stats.cascade_checks);
                 if m.holders(o.id).1 == 0 {
                     wd.err("C04", "not_reclaimed_at_zero", "zero_handles_not_reclaimed".into(), format!("the last Cc to #{} was dropped outside a collection but the object was not dropped and deallocated before that drop returned (at {})", o.id, at));
                 }
